@@ -21,7 +21,7 @@ const EXPRS: [(&str, &str); 10] = [
 ];
 
 /// (name, expected type tag of the hole, program with § hole)
-const POSITIONS: [(&str, &str, &str); 22] = [
+const POSITIONS: [(&str, &str, &str); 30] = [
     ("binop-operand-right", "int32", "fn main() { let a: int32 = 1; let r = a + §; string_println(int32_to_string(r)) }"),
     ("binop-operand-left", "int32", "fn main() { let a: int32 = 1; let r = § - a; string_println(int32_to_string(r)) }"),
     ("cmp-operand", "int32", "fn main() { let a: int32 = 1; let r = a < §; string_println(bool_to_string(r)) }"),
@@ -44,10 +44,20 @@ const POSITIONS: [(&str, &str, &str); 22] = [
     ("closure-arg", "int32", "fn main() { let f = |q: int32| q + 1; string_println(int32_to_string(f(§))) }"),
     ("method-arg", "int32", "impl P { fn add(self: P, k: int32) -> int32 { self.a + k } }\nfn main() { let p = P { a: 1 }; string_println(int32_to_string(p.add(§))) }"),
     ("generic-same-type", "int32", "fn same[T](a: T, b: T) -> T { a }\nfn main() { string_println(int32_to_string(same(1, §))) }"),
+    // the argument of a trait method called in path form: the receiver's type is known at the call, or only
+    // once inference has gone on (a generic call, a closure parameter, a field of a generic struct)
+    ("trait-path-arg-concrete-receiver", "int32", "trait Dsp { fn sw(Self, int32) -> string; }\nimpl Dsp for P { fn sw(self: P, k: int32) -> string { int32_to_string(self.a + k) } }\nfn idg[U](u: U) -> U { u }\nstruct Bq[T] { v: T }\nfn main() { string_println(Dsp::sw(P { a: 1 }, §)) }"),
+    ("trait-path-arg-tparam-receiver", "int32", "trait Dsp { fn sw(Self, int32) -> string; }\nimpl Dsp for P { fn sw(self: P, k: int32) -> string { int32_to_string(self.a + k) } }\nfn idg[U](u: U) -> U { u }\nstruct Bq[T] { v: T }\nfn render[T: Dsp](x: T) -> string { Dsp::sw(x, §) }\nfn main() { string_println(render(P { a: 1 })) }"),
+    ("trait-dot-arg-tparam-receiver", "int32", "trait Dsp { fn sw(Self, int32) -> string; }\nimpl Dsp for P { fn sw(self: P, k: int32) -> string { int32_to_string(self.a + k) } }\nfn idg[U](u: U) -> U { u }\nstruct Bq[T] { v: T }\nfn render[T: Dsp](x: T) -> string { x.sw(§) }\nfn main() { string_println(render(P { a: 1 })) }"),
+    ("trait-path-arg-tparam-receiver-via-call", "int32", "trait Dsp { fn sw(Self, int32) -> string; }\nimpl Dsp for P { fn sw(self: P, k: int32) -> string { int32_to_string(self.a + k) } }\nfn idg[U](u: U) -> U { u }\nstruct Bq[T] { v: T }\nfn render[T: Dsp](x: T) -> string { Dsp::sw(idg(x), §) }\nfn main() { string_println(render(P { a: 1 })) }"),
+    ("trait-path-arg-tparam-receiver-via-closure-param", "int32", "trait Dsp { fn sw(Self, int32) -> string; }\nimpl Dsp for P { fn sw(self: P, k: int32) -> string { int32_to_string(self.a + k) } }\nfn idg[U](u: U) -> U { u }\nstruct Bq[T] { v: T }\nfn render[T: Dsp](x: T) -> string { let g = |y| Dsp::sw(y, §); g(x) }\nfn main() { string_println(render(P { a: 1 })) }"),
+    ("trait-path-arg-tparam-receiver-via-field", "int32", "trait Dsp { fn sw(Self, int32) -> string; }\nimpl Dsp for P { fn sw(self: P, k: int32) -> string { int32_to_string(self.a + k) } }\nfn idg[U](u: U) -> U { u }\nstruct Bq[T] { v: T }\nfn render[T: Dsp](b: Bq[T]) -> string { Dsp::sw(b.v, §) }\nfn main() { string_println(render(Bq { v: P { a: 1 } })) }"),
+    ("trait-path-arg-concrete-receiver-via-call", "int32", "trait Dsp { fn sw(Self, int32) -> string; }\nimpl Dsp for P { fn sw(self: P, k: int32) -> string { int32_to_string(self.a + k) } }\nfn idg[U](u: U) -> U { u }\nstruct Bq[T] { v: T }\nfn main() { string_println(Dsp::sw(idg(P { a: 1 }), §)) }"),
+    ("trait-path-arg-concrete-receiver-via-closure-param", "int32", "trait Dsp { fn sw(Self, int32) -> string; }\nimpl Dsp for P { fn sw(self: P, k: int32) -> string { int32_to_string(self.a + k) } }\nfn idg[U](u: U) -> U { u }\nstruct Bq[T] { v: T }\nfn main() { let g = |y| Dsp::sw(y, §); string_println(g(P { a: 1 })) }"),
 ];
 
 /// whole programs with one structural type error (name, source)
-const STRUCTURAL: [(&str, &str); 18] = [
+const STRUCTURAL: [(&str, &str); 26] = [
     ("array-length-annotation", "fn main() { let a: [int32; 3] = [1, 2]; string_println(\"x\") }"),
     ("array-length-param", "fn f(a: [int32; 2]) -> int32 { array_get(a, 0) }\nfn main() { string_println(int32_to_string(f([1, 2, 3]))) }"),
     ("array-length-return", "fn f() -> [int32; 2] { [1, 2, 3] }\nfn main() { string_println(int32_to_string(array_get(f(), 0))) }"),
@@ -66,6 +76,14 @@ const STRUCTURAL: [(&str, &str); 18] = [
     ("return-unit-for-int", "fn g() -> int32 { string_println(\"x\") }\nfn main() { string_println(int32_to_string(g())) }"),
     ("unknown-type", "fn f(p: Nope) -> int32 { 1 }\nfn main() { string_println(\"x\") }"),
     ("unknown-variant", "fn main() { let o = Nothing; string_println(\"x\") }"),
+    ("trait-path-arity-tparam-receiver-via-call", "trait Dsp { fn sw(Self, int32) -> string; }\nimpl Dsp for P { fn sw(self: P, k: int32) -> string { int32_to_string(self.a + k) } }\nfn idg[U](u: U) -> U { u }\nstruct Bq[T] { v: T }\nfn render[T: Dsp](x: T) -> string { Dsp::sw(idg(x), 1, 2) }\nfn main() { string_println(render(P { a: 1 })) }"),
+    ("trait-path-arity-less-tparam-receiver-via-call", "trait Dsp { fn sw(Self, int32) -> string; }\nimpl Dsp for P { fn sw(self: P, k: int32) -> string { int32_to_string(self.a + k) } }\nfn idg[U](u: U) -> U { u }\nstruct Bq[T] { v: T }\nfn render[T: Dsp](x: T) -> string { Dsp::sw(idg(x)) }\nfn main() { string_println(render(P { a: 1 })) }"),
+    ("trait-path-missing-bound-tparam-receiver", "trait Dsp { fn sw(Self, int32) -> string; }\nimpl Dsp for P { fn sw(self: P, k: int32) -> string { int32_to_string(self.a + k) } }\nfn idg[U](u: U) -> U { u }\nstruct Bq[T] { v: T }\nfn render[T](x: T) -> string { Dsp::sw(x, 1) }\nfn main() { string_println(render(P { a: 1 })) }"),
+    ("trait-path-missing-bound-tparam-receiver-via-call", "trait Dsp { fn sw(Self, int32) -> string; }\nimpl Dsp for P { fn sw(self: P, k: int32) -> string { int32_to_string(self.a + k) } }\nfn idg[U](u: U) -> U { u }\nstruct Bq[T] { v: T }\nfn render[T](x: T) -> string { Dsp::sw(idg(x), 1) }\nfn main() { string_println(render(P { a: 1 })) }"),
+    ("trait-path-missing-bound-tparam-receiver-via-closure-param", "trait Dsp { fn sw(Self, int32) -> string; }\nimpl Dsp for P { fn sw(self: P, k: int32) -> string { int32_to_string(self.a + k) } }\nfn idg[U](u: U) -> U { u }\nstruct Bq[T] { v: T }\nfn render[T](x: T) -> string { let g = |y| Dsp::sw(y, 1); g(x) }\nfn main() { string_println(render(P { a: 1 })) }"),
+    ("trait-path-missing-bound-tparam-receiver-via-field", "trait Dsp { fn sw(Self, int32) -> string; }\nimpl Dsp for P { fn sw(self: P, k: int32) -> string { int32_to_string(self.a + k) } }\nfn idg[U](u: U) -> U { u }\nstruct Bq[T] { v: T }\nfn render[T](b: Bq[T]) -> string { Dsp::sw(b.v, 1) }\nfn main() { string_println(render(Bq { v: P { a: 1 } })) }"),
+    ("trait-path-no-impl-concrete-receiver-via-call", "trait Dsp { fn sw(Self, int32) -> string; }\nimpl Dsp for P { fn sw(self: P, k: int32) -> string { int32_to_string(self.a + k) } }\nfn idg[U](u: U) -> U { u }\nstruct Bq[T] { v: T }\nfn main() { string_println(Dsp::sw(idg(true), 1)) }"),
+    ("trait-path-other-bound-tparam-receiver-via-call", "trait Dsp { fn sw(Self, int32) -> string; }\nimpl Dsp for P { fn sw(self: P, k: int32) -> string { int32_to_string(self.a + k) } }\nfn idg[U](u: U) -> U { u }\nstruct Bq[T] { v: T }\ntrait Oth { fn oth(Self) -> int32; }\nimpl Oth for P { fn oth(self: P) -> int32 { 1 } }\nfn render[T: Oth](x: T) -> string { Dsp::sw(idg(x), 1) }\nfn main() { string_println(render(P { a: 1 })) }"),
 ];
 
 const PRELUDE: &str = "struct P { a: int32 }\nenum Opt { Non, Som(int32) }\n";
@@ -186,7 +204,7 @@ impl Family for IllTyped {
         &["C03", "C04"]
     }
     fn rule(&self) -> &'static str {
-        "22 typed positions (operator operands, annotated let, parameters, conditions, return position, struct field, constructor payload, array element/index/set, ref_set, vec_push, branches, closure/method/generic arguments) x 10 expressions of different types (the well-typed one must be accepted, the other nine rejected by the typer); 18 structural errors (array length in annotation/param/return, unknown/missing/extra field, call and constructor arity, tuple projection range, pattern arity/type, calling a non-function, unknown type/variant); literal patterns: 4 literal kinds x 10 scrutinee types x 6 positions (directly; under a generic constructor, in a tuple from a generic call, on a closure parameter, on a let-bound generic result - the scrutinee's type still being inferred; against a rigid type parameter): rejected unless the literal's kind is the type's; written types: 24 spellings (6 well-formed; unknown names bare and under Vec / Ref / array / tuple / function types / a generic struct, a generic struct with no / too many arguments also under Vec, arguments given to a non-generic struct or a builtin, dyn of a missing trait / of a struct, the enclosing function's type parameter and one that is nobody's) x 16 places a type can be written (parameter, result, struct field, enum payload, let annotation in main / in an unused function / in a closure / in a match arm / on a tuple pattern / in a generic function, closure parameter plain / nested / second, method parameter, trait method parameter, extern parameter): accepted iff well-formed; operator domain: 12 binary + 2 unary operators x 13 operand types, written directly and inside a generic function instantiated at the type (accepted iff inside the documented domain). non-trivial = ill-typed variants; distinct = distinct source text"
+        "30 typed positions (operator operands, annotated let, parameters, conditions, return position, struct field, constructor payload, array element/index/set, ref_set, vec_push, branches, closure/method/generic arguments, the argument of a trait method called in path / dot form on a concrete receiver and on a type-parameter receiver whose type is known at the call or only after a generic call / through a closure parameter / through a field of a generic struct) x 10 expressions of different types (the well-typed one must be accepted, the other nine rejected by the typer); 26 structural errors (array length in annotation/param/return, unknown/missing/extra field, call and constructor arity, tuple projection range, pattern arity/type, calling a non-function, unknown type/variant; a trait method called in path form with too many / too few arguments, without the bound, under another bound, with no impl for the receiver - the receiver reached directly, through a generic call, a closure parameter, a field); literal patterns: 4 literal kinds x 10 scrutinee types x 6 positions (directly; under a generic constructor, in a tuple from a generic call, on a closure parameter, on a let-bound generic result - the scrutinee's type still being inferred; against a rigid type parameter): rejected unless the literal's kind is the type's; written types: 24 spellings (6 well-formed; unknown names bare and under Vec / Ref / array / tuple / function types / a generic struct, a generic struct with no / too many arguments also under Vec, arguments given to a non-generic struct or a builtin, dyn of a missing trait / of a struct, the enclosing function's type parameter and one that is nobody's) x 16 places a type can be written (parameter, result, struct field, enum payload, let annotation in main / in an unused function / in a closure / in a match arm / on a tuple pattern / in a generic function, closure parameter plain / nested / second, method parameter, trait method parameter, extern parameter): accepted iff well-formed; operator domain: 12 binary + 2 unary operators x 13 operand types, written directly and inside a generic function instantiated at the type (accepted iff inside the documented domain). non-trivial = ill-typed variants; distinct = distinct source text"
     }
     fn cases(&self, _tier: Tier) -> Box<dyn Iterator<Item = Value> + '_> {
         let mut v = Vec::new();
